@@ -166,6 +166,8 @@ def encode_with(program, method, frames, payload=None):
     selfo = A.AObj(sequence_counter=A.AInt(0))
     msg = make_message()
     res = it.call_function(fn, [selfo, msg])
+    if not isinstance(res, (A.AStr, A.ABytes)) and (not isinstance(res, A.AList) or not res.items or not all(isinstance(x, (A.ABytes, A.AStr)) for x in res.items)):
+        raise A.Unknown(f"{method}: the packets returned were not followed ({res!r})"[:160])
     return res, rec
 
 def decode_with(program, method, packet, extra_args=()):
